@@ -566,6 +566,7 @@ inductive Op
   | remove (e : List Nat) (a n : Nat)
   | setAvail (e : List Nat) (a n : Nat) (b : Bool)
   | removeAll (e : List Nat)
+deriving DecidableEq
 
 /-- the API is used with non-empty actor and use-case names -/
 def Op.ok : Op → Prop
